@@ -302,6 +302,7 @@ func (c *conn) close() {
 	c.ctx.Cancel()
 	c.conn.Close()
 	c.closed.Set()
+	verifYield("close.afterSet")
 	c.writeq.Close()
 }
 
@@ -317,6 +318,7 @@ func (c *conn) closeChannels() {
 		return
 	}
 	c.channelsClosed.Store(true)
+	verifYield("closeChannels.afterFlag")
 
 	c.channels.Range(func(_ bin.Bin128, ch internalChannel) bool {
 		ch.free()
@@ -420,6 +422,7 @@ func (c *conn) addClosed(fn func()) int64 {
 	// Add listener
 	id := c.closedListenerSeq.Add(1)
 	c.closedListeners.Set(id, fn)
+	verifYield("listener.afterInsert")
 
 	// Check again if closed
 	if c.closed.IsSet() {
@@ -434,6 +437,7 @@ func (c *conn) removeClosed(id int64) {
 }
 
 func (c *conn) notifyClosed() {
+	verifYield("notify.beforeRange")
 	c.closedListeners.Range(func(_ int64, fn func()) bool {
 		fn()
 		return true
